@@ -869,3 +869,104 @@ def replay_mqtt_subscriptions(model, rec):
 
 
 HOOKS.insert(0, (re.compile(r"^(MQTTTransport|BaseMQTTGateway)\..*frame\.|handle_subscription|init_topics"), replay_mqtt_subscriptions))
+
+
+def replay_send_race(model, rec):
+    """send() while another thread disconnects or the reader loses the connection: the interference is injected
+    at the points where send() touches the shared attributes (during the write, and right before it)"""
+    from unittest import mock
+
+    from mysensors import transport as TR
+
+    for cls in (TR.Transport, TR.SyncTransport):
+        for when in ("before-write", "in-write"):
+            for what in ("disconnect", "lost"):
+                for fails in (False, True):
+                    tr = cls(mock.MagicMock(), lambda t: None)
+                    conn = mock.MagicMock()
+                    proto = mock.MagicMock()
+                    proto.transport = conn
+                    tr.protocol = proto
+
+                    def interfere():
+                        if what == "disconnect":
+                            tr.protocol = None
+                        else:
+                            proto.transport = None
+
+                    def write(data):
+                        if when == "in-write":
+                            interfere()
+                        if fails:
+                            raise OSError("broken pipe")
+
+                    conn.write = write
+                    if when == "before-write":
+                        # the interference lands between the check of the connection and the write
+                        real_strip = "x".strip
+
+                        class Msg(str):
+                            def encode(self, *a, **k):
+                                interfere()
+                                return str.encode(self, *a, **k)
+
+                        message = Msg("1;1;1;0;2;1\n")
+                    else:
+                        message = "1;1;1;0;2;1\n"
+                    try:
+                        tr.send(message)
+                    except Exception as e:  # noqa: BLE001
+                        return True, f"{cls.__name__}.send: {what} by another thread {when.replace('-', ' ')}" + (", the write failing with OSError" if fails else "") + f": {type(e).__name__}: {e} escapes into the message pump"
+    return False, "send never raises under the injected interference"
+
+
+HOOKS.insert(0, (re.compile(r"^(Transport|SyncTransport|AsyncTransport)\.send"), replay_send_race))
+
+
+def replay_dirty_flag(model, rec):
+    """histories on a real gateway with persistence: after a save, every accepted line that changes what the
+    file would hold must mark the state as unsaved and call the event callback once"""
+    import os
+    import tempfile
+    from unittest import mock
+
+    import mysensors
+
+    def tree(gw):
+        return {
+            n: (s.type, s.sketch_name, s.sketch_version, s.battery_level, s.protocol_version, s.heartbeat, {c: (ch.type, ch.description, dict(ch.values)) for c, ch in s.children.items()})
+            for n, s in gw.sensors.items()
+        }
+
+    setups = {
+        "empty": [],
+        "node": ["1;255;0;0;17;2.0", "1;0;0;0;3;lamp", "1;0;1;0;2;0"],
+        "node-awaiting-reboot": ["1;255;0;0;17;2.0", "1;0;0;0;3;lamp", "1;0;1;0;2;0", "REBOOT 1"],
+        "sleeping": ["1;255;0;0;17;2.0", "1;0;0;0;3;lamp", "1;0;1;0;2;0", "1;255;3;0;22;5", "1;255;3;0;32;500"],
+    }
+    lines = ["255;255;3;0;3;", "1;0;1;0;2;1", "1;255;3;0;0;77", "1;255;3;0;11;sketch", "1;255;3;0;12;1.1", "1;1;0;0;6;temp", "9;255;0;0;17;2.0", "1;255;3;0;22;9", "1;0;1;0;3;40"]
+    for version in ("2.0", "1.4"):
+        for sname, hist in setups.items():
+            for line in lines:
+                with tempfile.TemporaryDirectory() as d:
+                    events = []
+                    gw = mysensors.Gateway(event_callback=lambda m: events.append(m), protocol_version=version)
+                    gw.tasks = mysensors.task.SyncTasks(gw.const, True, os.path.join(d, "p.json"), gw.sensors, mock.MagicMock())
+                    for h in hist:
+                        if h.startswith("REBOOT"):
+                            gw.sensors[int(h.split()[1])].reboot = True
+                        else:
+                            gw.logic(h + "\n")
+                    gw.tasks.persistence.need_save = False  # "a periodic save has just completed"
+                    del events[:]
+                    before = tree(gw)
+                    gw.logic(line + "\n")
+                    if tree(gw) != before:
+                        if not gw.tasks.persistence.need_save:
+                            return True, f"version {version}, state '{sname}': the line {line!r} changes the persisted view but need_save stays False: a stop() right after it writes nothing"
+                        if len(events) != 1:
+                            return True, f"version {version}, state '{sname}': the line {line!r} changes the state and the event callback fired {len(events)} times"
+    return False, "every state-changing line marks the state unsaved and fires one event"
+
+
+HOOKS.insert(0, (re.compile(r"reservation-marked-dirty|dirty-on-change|dirty-sticky|events-on-change"), replay_dirty_flag))
